@@ -44,6 +44,7 @@ class Marker(LaserPath):
         None
         """
 
+        position = list(position)  # do not touch the caller's list
         if len(position) == 2:
             position.append(self.depth)
 
